@@ -189,6 +189,26 @@ def check_events(M, C, sizes, tails, candidates, base_case, pfx="anyL", domain=N
         M._rec(pfx + "/coverage/every-element-written", st, "z3-lia", G.LAST_SECS[0], detail=mdl or "", cex=_cex(mdl))
 
 
+def check_spec_reads(M, C, sizes, pfx, extra_prem=None):
+    """the indices with which the run read a callee's table (GSpecTable) lie inside that table"""
+    env, _ = G._z3env()
+    prem = _sizes_premise(env, sizes) + list(extra_prem(env) if extra_prem else [])
+    n = 0
+    for k, r in enumerate(getattr(C, "spec_reads", [])):
+        for e, D in r["bounds"]:
+            n += 1
+            st, mdl = G.check_valid(prem + [G._cons_z3(r["cons"], env)], z3_and_range(e, D, env))
+            M._rec("%s/read-of-%s%02d[%s]/index-in-range[%r]" % (pfx, r.get("table", "callee"), k, ",".join(repr(x) for x in r["idx"]), e), st, "z3-lia", G.LAST_SECS[0],
+                   detail=mdl or "", cex=_cex(mdl))
+    return n
+
+
+def z3_and_range(e, D, env):
+    import z3
+
+    return z3.And(e.z3(env) >= 0, e.z3(env) < D.z3(env))
+
+
 class MomentRecursionAnyL:
     """_compute_multipole_moment_integrals_intermediate fills integrals[k, j, i] = S[k, j, i] for ALL
     order_moment_max, angmom_b_max, angmom_a_max >= 0 (generic-element execution; see the module docstring)"""
@@ -435,6 +455,7 @@ class DiffRecursionAnyL:
         cp = _case_premise(C, sizes)
         check_events(M, C, sizes, tails, candidates, base_case, pfx=pfx, domain=domain, returned=[ret],
                      extra_prem=lambda env: [env("nd") >= 1] + (cp(env) if cp else []))
+        check_spec_reads(M, C, sizes, pfx, extra_prem=lambda env: [env("nd") >= 1] + (cp(env) if cp else []))
 
 
 class OneElecVerticalAnyL:
@@ -1174,3 +1195,567 @@ class OneElecKernelAnyL(OneElecVerticalAnyL):
                 atom = C.named_atom("S1", pv[3], pv[4], pv[5], pv[0], pv[1], pv[2], tail)
                 M.eq(pfx + "/result/value" + str(list(tail)), got * got * den, atom * atom)
                 M.eq(pfx + "/result/value-sign" + str(list(tail)), got * den.sqrt(), atom)
+
+
+class CleanupAnyL:
+    """_cleanup_intermediate_integrals (shared by the multipole-moment and the differential-operator integrals), for a table
+    T[k, j, i, x, p_b, p_a] of ANY extents (n_k + 1, n_b + 1, n_a + 1, 3, K_b, K_a) and ANY order / component rows o_d = (o_x, o_y, o_z),
+    b_s = (b_x, b_y, b_z), a_r = (a_x, a_y, a_z) that lie inside it (D, L_b, L_a rows: the shape of the harness):
+
+        result[d, m_a, r, m_b, s] = sum over p_a, p_b of  T[o_dx, b_sx, a_rx, 0, p_b, p_a] T[o_dy, b_sy, a_ry, 1, p_b, p_a] T[o_dz, b_sz, a_rz, 2, p_b, p_a]
+                                                          norm_a[r, p_a] norm_b[s, p_b] coeffs_a[p_a, m_a] coeffs_b[p_b, m_b]
+
+    and every index used on T is in range."""
+
+    function = "gbasis.integrals._moment_int._cleanup_intermediate_integrals (any extents, any components)"
+
+    def shapes(self, tier):
+        # K primitives, M segments per shell; R = (D, L_a, L_b) rows of orders / components of a / components of b
+        out = [dict(K=[2, 1], M=[2, 1], R=[1, 1, 1]), dict(K=[1, 2], M=[1, 2], R=[2, 1, 2]), dict(K=[1, 1], M=[1, 1], R=[1, 3, 2])]
+        if tier == "thorough":
+            out.append(dict(K=[2, 2], M=[2, 2], R=[3, 3, 3]))
+        return out
+
+    def native(self, shape, M):
+        """replay: concrete extents / rows from the counterexample (or defaults), a random table, the definition above"""
+        mod = M.mods["gbasis.integrals._moment_int"]
+
+        def ext(name, default):
+            try:
+                return max(0, min(4, int(M.env[name])))
+            except Exception:
+                return default
+
+        Ka, Kb = shape["K"]
+        Ma, Mb = shape["M"]
+        D, La, Lb = shape.get("R", [1, 1, 1])
+        n = [ext("nk", 2), ext("nb", 2), ext("na", 2)]
+        defaults = [(1, 0, 2), (0, 2, 1), (2, 1, 0)]
+        rows = [[[min(ext(pre + x + (str(r) if r else ""), defaults[r % 3][j]), n[t]) for j, x in enumerate("xyz")] for r in range(cnt)]
+                for t, (pre, cnt) in enumerate((("o", D), ("b", Lb), ("a", La)))]
+        import random
+
+        rnd = random.Random(7)
+        T = np.array([rnd.uniform(0.5, 1.5) for _ in range((n[0] + 1) * (n[1] + 1) * (n[2] + 1) * 3 * Kb * Ka)]).reshape(n[0] + 1, n[1] + 1, n[2] + 1, 3, Kb, Ka)
+        na_, nb_ = M.vec("na_", (La, Ka), "pos"), M.vec("nb_", (Lb, Kb), "pos")
+        ca, cb = M.vec("ca", (Ka, Ma)), M.vec("cb", (Kb, Mb))
+        name = M.wanted or "anyLcleanup/native-result-equals-definition"
+        try:
+            out = mod._cleanup_intermediate_integrals(T, np.array(rows[0]), np.array(rows[2]), ca, na_, np.array(rows[1]), cb, nb_)
+        except Exception as e:  # noqa
+            M.true(name, False, "extents %s rows %s: the native function raised %s: %s" % (n, rows, type(e).__name__, e))
+            return
+        ok = tuple(np.shape(out)) == (D, Ma, La, Mb, Lb)
+        worst = 0.0
+        if ok:
+            for d, ma, r, mb, s_ in itertools.product(range(D), range(Ma), range(La), range(Mb), range(Lb)):
+                want = 0.0
+                for pa in range(Ka):
+                    for pb in range(Kb):
+                        pr = 1.0
+                        for x in range(3):
+                            pr *= T[rows[0][d][x], rows[1][s_][x], rows[2][r][x], x, pb, pa]
+                        want += pr * float(na_[r, pa]) * float(nb_[s_, pb]) * float(ca[pa, ma]) * float(cb[pb, mb])
+                worst = max(worst, abs(float(out[d, ma, r, mb, s_]) - want) / max(1.0, abs(want)))
+        M.true(name, ok and worst <= 1e-9, "extents %s rows %s: shape %s, worst relative deviation %.3g" % (n, rows, tuple(np.shape(out)), worst))
+
+    def run(self, shape, M):
+        if not M.symbolic:
+            return self.native(shape, M)
+        mod = M.mods["gbasis.integrals._moment_int"]
+        Ka, Kb = shape["K"]
+        Ma, Mb = shape["M"]
+        D, La, Lb = shape.get("R", [1, 1, 1])
+        ext = ["nk", "nb", "na"]
+        names = [[[pre + x + (str(r) if r else "") for x in "xyz"] for r in range(cnt)] for pre, cnt in (("o", D), ("b", Lb), ("a", La))]
+        sizes = ext + [nm for rows in names for row in rows for nm in row]
+        na_, nb_ = M.vec("na_", (La, Ka), "pos"), M.vec("nb_", (Lb, Kb), "pos")
+        ca, cb = M.vec("ca", (Ka, Ma)), M.vec("cb", (Kb, Mb))
+
+        def arr(rows):
+            a = np.empty((len(rows), 3), dtype=object)
+            for r, row in enumerate(rows):
+                for j, nm in enumerate(row):
+                    a[r, j] = G.Aff.var(nm)
+            return a
+
+        def body(C_):
+            T = G.GSpecTable([G.Aff.var(e) + 1 for e in ext], (3, Kb, Ka), "T")
+            with bind.patched((mod, "np", G.GNp(mod.np)), (mod, "range", G.grange)):
+                return mod._cleanup_intermediate_integrals(T, arr(names[0]), arr(names[2]), ca, na_, arr(names[1]), cb, nb_)
+
+        def setup(C_):
+            for e, rows in zip(ext, names):  # precondition: the rows lie inside the table
+                for row in rows:
+                    for nm in row:
+                        C_.assumed.append(("le", G.Aff.var(nm), G.Aff.var(e)))
+
+        cases = G.run_cases(sizes, body, setup)
+        for cn, (C, out) in enumerate(cases):
+            pfx = "anyLcleanup" if len(cases) == 1 else "anyLcleanup/case%d" % cn
+            cp = _case_premise(C, sizes)
+            nb = check_spec_reads(M, C, sizes, pfx, extra_prem=cp)
+            M.true(pfx + "/table-read-with-checked-indices", nb >= 9 * D * La * Lb, "%d index-in-range obligations on the intermediate table" % nb)
+            data = out.data if isinstance(out, G.GVal) else np.asarray(out, dtype=object)
+            ok = tuple(data.shape) == (D, Ma, La, Mb, Lb) and not getattr(out, "sym", None)
+            M.true(pfx + "/result/shape", ok, "%s (expected (D, M_a, L_a, M_b, L_b) = %s)" % (tuple(data.shape), (D, Ma, La, Mb, Lb)))
+            if not ok:
+                continue
+            o, b, a = [[[G.Aff.var(nm) for nm in row] for row in rows] for rows in names]
+            for d, ma, r, mb, s_ in itertools.product(range(D), range(Ma), range(La), range(Mb), range(Lb)):
+                want = S.lift(0)
+                for pa in range(Ka):
+                    for pb in range(Kb):
+                        pr = S.lift(1)
+                        for x in range(3):
+                            pr = pr * C.named_atom("T", o[d][x], b[s_][x], a[r][x], (x, pb, pa))
+                        want = want + pr * na_[r, pa] * nb_[s_, pb] * ca[pa, ma] * cb[pb, mb]
+                M.eq(pfx + "/result/value" + str([d, ma, r, mb, s_]), data[d, ma, r, mb, s_], want)
+
+
+class _WrapperAnyL:
+    """common part of the two wrappers  intermediate table -> clean-up:  the table is requested with extents that contain every
+    row (np.max of each array), with the geometry forwarded unchanged, and the clean-up receives that table and the caller's
+    arrays unchanged; its result is returned.  np.max / np.min of an array of symbolic integers are replaced by their contracts
+    (an upper / a lower bound of every entry)."""
+
+    modname = None
+    fname = None
+    callee = None
+    pfx = None
+
+    def shapes(self, tier):
+        return [dict(K=[2, 1], M=[2, 1])]
+
+    def _call(self, mod, geo, arrs, ca, na_, cb, nb_):
+        raise NotImplementedError
+
+    def _expected_callee_args(self, it, geo, same):
+        raise NotImplementedError
+
+    def run(self, shape, M):
+        mod = M.mods[self.modname]
+        Ka, Kb = shape["K"]
+        Ma, Mb = shape["M"]
+        A, B, Cm = M.vec("A", 3), M.vec("B", 3), M.vec("C", 3)
+        ea, eb = M.vec("a", Ka, "pos"), M.vec("b", Kb, "pos")
+        na_, nb_ = M.vec("na_", (1, Ka), "pos"), M.vec("nb_", (1, Kb), "pos")
+        ca, cb = M.vec("ca", (Ka, Ma)), M.vec("cb", (Kb, Mb))
+        if not M.symbolic:
+            # replay / float: the wrapper on concrete rows - the table really requested must contain them
+            rows = [np.array([[1, 0, 2]]), np.array([[0, 1, 1]]), np.array([[2, 0, 0]])]
+            name = M.wanted or self.pfx + "/native-call-succeeds"
+            try:
+                out = self._call(mod, (A, B, Cm, ea, eb), rows, ca, na_, cb, nb_)
+                M.true(name, tuple(np.shape(out)) == (1, Ma, 1, Mb, 1), "shape %s" % (tuple(np.shape(out)),))
+            except Exception as e:  # noqa
+                M.true(name, False, "rows (1,0,2), (0,1,1), (2,0,0): the native wrapper raised %s: %s" % (type(e).__name__, e))
+            return
+        names = [[pre + x for x in "xyz"] for pre in ("o", "b", "a")]
+        bounds = ["mxo", "mxb", "mxa", "mno", "mnb", "mna"]
+        sizes = [nm for r in names for nm in r] + bounds
+        arrs = []
+        for r in names:
+            a = np.empty((1, 3), dtype=object)
+            for j, nm in enumerate(r):
+                a[0, j] = G.Aff.var(nm)
+            arrs.append(a)
+
+        def body(C_):
+            seen = {}
+
+            def which(x):
+                for t, a in enumerate(arrs):
+                    if x is a:
+                        return t
+                raise alg.Undecided("np.max / np.min of something that is not one of the caller's arrays")
+
+            def gmax(x, *a_, **k_):
+                if a_ or k_:
+                    raise alg.Undecided("np.max with further arguments")
+                return G.Aff.var(bounds[which(x)])
+
+            def gmin(x, *a_, **k_):
+                if a_ or k_:
+                    raise alg.Undecided("np.min with further arguments")
+                return G.Aff.var(bounds[3 + which(x)])
+
+            def inter(*args):
+                seen["inter"] = args
+                return ("TABLE",)
+
+            def clean(*args):
+                seen["clean"] = args
+                return ("RESULT",)
+
+            table_token = []
+            with bind.patched((mod, "np", G.GNp(mod.np, hooks={"max": gmax, "amax": gmax, "min": gmin, "amin": gmin})), (mod, self.callee, inter),
+                              (mod, "_cleanup_intermediate_integrals", clean)):
+                out = self._call(mod, (A, B, Cm, ea, eb), arrs, ca, na_, cb, nb_)
+            return out, seen
+
+        def setup(C_):
+            for t, r in enumerate(names):
+                for nm in r:
+                    C_.assumed.append(("le", G.Aff.var(nm), G.Aff.var(bounds[t])))  # contract of np.max
+                    C_.assumed.append(("ge", G.Aff.var(nm), G.Aff.var(bounds[3 + t])))  # contract of np.min
+
+        cases = G.run_cases(sizes, body, setup)
+        for cn, (C, (out, seen)) in enumerate(cases):
+            pfx = self.pfx if len(cases) == 1 else "%s/case%d" % (self.pfx, cn)
+            cp = _case_premise(C, sizes)
+            env, _ = G._z3env()
+            prem = _sizes_premise(env, sizes) + (cp(env) if cp else [])
+            it, cl = seen.get("inter"), seen.get("clean")
+            M.true(pfx + "/pre@intermediate/called", it is not None, "")
+            M.true(pfx + "/pre@cleanup/called", cl is not None, "")
+            if it is None or cl is None:
+                continue
+
+            def same(x, ref):
+                x, ref = np.asarray(x, dtype=object).reshape(-1), np.asarray(ref, dtype=object).reshape(-1)
+                return x.shape == ref.shape and all(alg.v_equal(S.expand(S.lift(u)), S.expand(S.lift(v))) for u, v in zip(x, ref))
+
+            geo_ok, ext = self._expected_callee_args(it, (A, B, Cm, ea, eb), same)
+            M.true(pfx + "/pre@intermediate/geometry-forwarded", geo_ok, "centres and exponents of a and b (and the centre of the moment) in the callee's order")
+            # the requested extents contain every row: (extent for the orders, for b, for a)
+            for t, (label, r) in enumerate(zip(("orders", "components-of-b", "components-of-a"), names)):
+                e = ext[t]
+                if not isinstance(e, (G.Aff, int, np.integer)):
+                    M.true(pfx + "/pre@intermediate/extent-%s" % label, False, "not an integer expression: %r" % (e,))
+                    continue
+                for nm in r:
+                    import z3
+
+                    st, mdl = G.check_valid(prem + [G._cons_z3(C.assumed, env)], z3.And(G.Aff.of(e).z3(env) >= env(nm)))
+                    M._rec(pfx + "/pre@intermediate/extent-%s-contains[%s]" % (label, nm), st, "z3-lia", G.LAST_SECS[0], detail=mdl or "", cex=_cex(mdl))
+            M.true(pfx + "/pre@cleanup/arguments-forwarded", len(cl) == 8 and cl[0] == ("TABLE",) and cl[1] is arrs[0] and cl[2] is arrs[2] and cl[3] is ca and cl[4] is na_
+                   and cl[5] is arrs[1] and cl[6] is cb and cl[7] is nb_,
+                   "(table, orders, components of a, coefficients of a, norms of a, components of b, coefficients of b, norms of b)")
+            M.true(pfx + "/result-is-the-cleanup-result", out == ("RESULT",), "")
+
+
+class MomentWrapperAnyL(_WrapperAnyL):
+    function = "gbasis.integrals._moment_int._compute_multipole_moment_integrals (any orders, any components)"
+    modname = "gbasis.integrals._moment_int"
+    callee = "_compute_multipole_moment_integrals_intermediate"
+    pfx = "anyLmomentwrap"
+
+    def _call(self, mod, geo, arrs, ca, na_, cb, nb_):
+        A, B, Cm, ea, eb = geo
+        return mod._compute_multipole_moment_integrals(Cm, arrs[0], A, arrs[2], ea, ca, na_, B, arrs[1], eb, cb, nb_)
+
+    def _expected_callee_args(self, it, geo, same):
+        A, B, Cm, ea, eb = geo
+        if len(it) != 8:
+            return False, (None, None, None)
+        return (same(it[0], Cm) and same(it[2], A) and same(it[4], ea) and same(it[5], B) and same(it[7], eb)), (it[1], it[6], it[3])
+
+
+class DiffWrapperAnyL(_WrapperAnyL):
+    function = "gbasis.integrals._diff_operator_int._compute_differential_operator_integrals (any orders, any components)"
+    modname = "gbasis.integrals._diff_operator_int"
+    callee = "_compute_differential_operator_integrals_intermediate"
+    pfx = "anyLdiffwrap"
+
+    def _call(self, mod, geo, arrs, ca, na_, cb, nb_):
+        A, B, Cm, ea, eb = geo
+        return mod._compute_differential_operator_integrals(arrs[0], A, arrs[2], ea, ca, na_, B, arrs[1], eb, cb, nb_)
+
+    def _expected_callee_args(self, it, geo, same):
+        A, B, Cm, ea, eb = geo
+        if len(it) != 7:
+            return False, (None, None, None)
+        return (same(it[1], A) and same(it[3], ea) and same(it[4], B) and same(it[6], eb)), (it[0], it[5], it[2])
+
+
+def _stub_shell(cls, angmom, coord, exps, coeffs, comps):
+    """a shell whose angular momentum is a symbolic integer: a subclass instance (so `isinstance` checks of the code under
+    contract pass) whose attributes are what the harness gives - the contract of GeneralizedContractionShell's read-only
+    interface (the components rows add up to the angular momentum: a premise of the run)"""
+
+    class SymbolicShell(cls):
+        angmom = property(lambda self: angmom)
+        coord = property(lambda self: coord)
+        exps = property(lambda self: exps)
+        coeffs = property(lambda self: coeffs)
+        angmom_components_cart = property(lambda self: comps)
+
+        def __init__(self):  # noqa - none of the real constructor's conversions
+            pass
+
+    return SymbolicShell()
+
+
+class ERIBlockAnyL:
+    """ElectronRepulsionIntegral.construct_array_contraction for shells of ANY angular momenta l_1..l_4 >= 0 (symbolic), with both
+    kernels replaced by their contracts.  Every comparison the routine makes on the angular momenta splits the run into cases; in
+    every case: the closed-form kernel is used only if all four shells are s shells and the general kernel only if they are not
+    (its precondition); each shell's centre, l, components, exponents, coefficients stay together; the pairs are passed as
+    (1,2|3,4) or, swapped as wholes, as (3,4|1,2) with the result transposed back; the class's Boys function is handed over;
+    out[m1,c1,m2,c2,m3,c3,m4,c4] = K[c1,c2,c3,c4,m1,m2,m3,m4] of the (possibly swapped) kernel call.  The numbers of segments and
+    of component rows are those of the harness shape."""
+
+    function = "gbasis.integrals.electron_repulsion.ElectronRepulsionIntegral.construct_array_contraction (any angular momenta)"
+
+    def shapes(self, tier):
+        return [dict(M=[2, 1, 1, 2], R=[1, 2, 3, 1], K=[1, 2, 1, 1])]
+
+    def native(self, shape, M):
+        from .coulomb import ERIBlock
+
+        def ext(name, default):
+            try:
+                return max(0, min(2, int(M.env[name])))
+            except Exception:
+                return default
+
+        ls = [ext("l1", 0), ext("l2", 0), ext("l3", 1), ext("l4", 1)]
+        before = len(M.results)
+        wanted, M.wanted = M.wanted, None
+        name = wanted or "anyLeriblock/native-block-obeys-the-per-shape-contract"
+        try:
+            ERIBlock().run(dict(l=ls, M=[1, 2, 1, 1]), M)
+        except Exception as e:  # noqa
+            M.wanted = wanted
+            del M.results[before:]
+            M.true(name, False, "l = %s: the native routine raised %s: %s" % (ls, type(e).__name__, e))
+            return
+        finally:
+            M.wanted = wanted
+        new = M.results[before:]
+        del M.results[before:]
+        bad = [r["name"] for r in new if r["status"] == "failed"]
+        for r in new:
+            if r["status"] == "value":
+                from engine import runner
+
+                g, e = runner._parse_num(r["got"]), runner._parse_num(r["exp"])
+                if not (abs(g - e) <= 1e-9 * max(abs(e), abs(g), 1)):
+                    bad.append(r["name"])
+        M.true(name, not bad, "l = %s: %d of %d clauses of the per-shape contract fail natively; first: %s" % (ls, len(bad), len(new), bad[:2]))
+
+    def run(self, shape, M):
+        if not M.symbolic:
+            return self.native(shape, M)
+        import z3
+
+        er = M.mods["gbasis.integrals.electron_repulsion"]
+        cls = M.mods["gbasis.contractions"].GeneralizedContractionShell
+        Mn, R, K = shape["M"], shape["R"], shape["K"]
+        sizes = ["l1", "l2", "l3", "l4"]
+        ls = [G.Aff.var(n) for n in sizes]
+        shells = []
+        for i in range(4):
+            comps = np.empty((R[i], 3), dtype=object)
+            for r in range(R[i]):
+                for j in range(3):
+                    comps[r, j] = G.Aff.var("c%d_%d%s" % (i + 1, r, "xyz"[j]))
+            shells.append(_stub_shell(cls, ls[i], M.vec("X%d" % i, 3), M.vec("e%d" % i, K[i], "pos"), M.vec("d%d" % i, (K[i], Mn[i])), comps))
+        f = er.ElectronRepulsionIntegral.construct_array_contraction
+
+        def body(C_):
+            seen = {}
+
+            def zero_kernel(boys, *a):
+                seen["zero"] = (boys, a)
+                seen["cube"] = M.vec("K", (1, 1, 1, 1) + tuple(np.shape(x)[1] for x in a[2::3]), "opq")
+                return seen["cube"].copy()
+
+            def gen_kernel(boys, *a):
+                seen["gen"] = (boys, a)
+                seen["cube"] = M.vec("K", tuple(len(c) for c in a[2::5]) + tuple(np.shape(x)[1] for x in a[4::5]), "opq")
+                return seen["cube"].copy()
+
+            with bind.patched((er, "_compute_two_elec_integrals_angmom_zero", zero_kernel), (er, "_compute_two_elec_integrals", gen_kernel)):
+                out = f(*shells)
+            return out, seen
+
+        cases = G.run_cases(sizes, body, max_cases=64)
+        M.true("anyLeriblock/cases", len(cases) >= 2, "%d cases of the comparisons on the angular momenta" % len(cases))
+        env, _ = G._z3env()
+        for cn, (C, (out, seen)) in enumerate(cases):
+            pfx = "anyLeriblock/case%d" % cn
+            prem = _sizes_premise(env, sizes) + [G._cons_z3(C.assumed, env)]
+            s0 = z3.Solver()
+            s0.add(z3.And(prem))
+            if s0.check() == z3.unsat:
+                M._rec(pfx + "/unreachable", "discharged", "z3-lia", 0.0, detail="the assumptions of this case contradict each other", vacuous=True)
+                continue
+            zero, gen = "zero" in seen, "gen" in seen
+            M.true(pfx + "/pre@kernel/exactly-one-kernel", zero != gen, "closed form: %s, general kernel: %s" % (zero, gen))
+            if zero == gen:
+                continue
+            allz = z3.And([env(n) == 0 for n in sizes])
+            # closed form only for four s shells (it ignores l); the general kernel's precondition: not all four are s shells
+            st, mdl = G.check_valid(prem, allz if zero else z3.Not(allz))
+            M._rec(pfx + "/pre@kernel/" + ("closed-form-only-for-all-s" if zero else "general-kernel-not-for-all-s"), st, "z3-lia", G.LAST_SECS[0], detail=mdl or "", cex=_cex(mdl))
+            boys, a = seen["zero"] if zero else seen["gen"]
+            per = 3 if zero else 5
+            ok_n = len(a) == 4 * per
+            M.true(pfx + "/pre@kernel/argument-count", ok_n, "%d arguments" % len(a))
+            if not ok_n:
+                continue
+            order = [0, 1, 2, 3] if a[0] is shells[0].coord else ([2, 3, 0, 1] if a[0] is shells[2].coord else None)
+            M.true(pfx + "/pre@kernel/pair-order", order is not None, "shells passed as (1,2,3,4) or (3,4,1,2): %s" % order)
+            if order is None:
+                continue
+            ok = True
+            for i, sh in enumerate([shells[j] for j in order]):
+                g = a[per * i:per * (i + 1)]
+                if zero:
+                    ok &= g[0] is sh.coord and g[1] is sh.exps and g[2] is sh.coeffs
+                else:
+                    ok &= g[0] is sh.coord and isinstance(g[1], G.Aff) and g[1].key() == sh.angmom.key() and g[2] is sh.angmom_components_cart and g[3] is sh.exps and g[4] is sh.coeffs
+            M.true(pfx + "/pre@kernel/args", bool(ok), "each shell's centre, l, components, exponents, coefficients stay together, pairs in order %s" % order)
+            bf = er.ElectronRepulsionIntegral.__dict__.get("boys_func", None)
+            M.true(pfx + "/pre@kernel/boys", boys is er.ElectronRepulsionIntegral.boys_func or getattr(boys, "__func__", boys) is getattr(bf, "__func__", bf),
+                   "the class's Boys function is handed to the kernel")
+            Ls = [1, 1, 1, 1] if zero else R
+            want = (Mn[0], Ls[0], Mn[1], Ls[1], Mn[2], Ls[2], Mn[3], Ls[3])
+            shp = tuple(np.shape(out))
+            M.true(pfx + "/shape", shp == want, "%s, expected %s" % (shp, want))
+            if shp != want:
+                continue
+            cube = M.to_spec(seen["cube"])
+            for idx in np.ndindex(*want):
+                mm = [idx[0], idx[2], idx[4], idx[6]]
+                cc = [idx[1], idx[3], idx[5], idx[7]]
+                M.eq(pfx + "/out" + str(list(idx)), out[idx], cube[tuple(cc[i] for i in order) + tuple(mm[i] for i in order)])
+        # the cases together cover every (l1, l2, l3, l4) >= 0
+        st, mdl = G.check_valid(_sizes_premise(env, sizes), z3.Or([G._cons_z3(C.assumed, env) for C, _ in cases]))
+        M._rec("anyLeriblock/cases-cover-all-angular-momenta", st, "z3-lia", G.LAST_SECS[0], detail=mdl or "", cex=_cex(mdl))
+
+
+class PointChargeBlockAnyL:
+    """PointChargeIntegral.construct_array_contraction for shells of ANY angular momenta l_1, l_2 >= 0 and ANY component rows
+    (symbolic integers 0 <= k <= l), with the kernel replaced by its contract (OneElecKernelAnyL: a table
+    K[a_x, a_y, a_z, b_x, b_y, b_z, n, m_a, m_b] of extents (l_a + 1)^3 (l_b + 1)^3, requested with l_a >= l_b).  In both cases of
+    the comparison l_1 < l_2:  the kernel is asked for the shell of higher l first (its precondition) with each shell's centre,
+    l, exponents, coefficients kept together, the points and the class's Boys function handed over; every component index used
+    on the table is in range; out[m_1, r_1, m_2, r_2, n] = -q_n K[comp_1[r_1], comp_2[r_2], n, m_1, m_2]  (or, swapped,
+    -q_n K[comp_2[r_2], comp_1[r_1], n, m_2, m_1]).  Segments, component rows and points as in the harness shape."""
+
+    function = "gbasis.integrals.point_charge.PointChargeIntegral.construct_array_contraction (any angular momenta, any components)"
+
+    def shapes(self, tier):
+        return [dict(M=[2, 1], R=[2, 3], K=[1, 2], N=2), dict(M=[1, 2], R=[1, 2], K=[1, 1], N=1)]
+
+    def native(self, shape, M):
+        from .coulomb import PointChargeBlock
+
+        def ext(name, default):
+            try:
+                return max(0, min(3, int(M.env[name])))
+            except Exception:
+                return default
+
+        la, lb = ext("l1", 1), ext("l2", 2)
+        before = len(M.results)
+        wanted, M.wanted = M.wanted, None
+        name = wanted or "anyLpcblock/native-block-obeys-the-per-shape-contract"
+        try:
+            PointChargeBlock().run(dict(la=la, lb=lb, M=list(shape["M"]), N=shape["N"]), M)
+        except Exception as e:  # noqa
+            M.wanted = wanted
+            del M.results[before:]
+            M.true(name, False, "l = (%d, %d): the native routine raised %s: %s" % (la, lb, type(e).__name__, e))
+            return
+        finally:
+            M.wanted = wanted
+        new = M.results[before:]
+        del M.results[before:]
+        bad = [r["name"] for r in new if r["status"] == "failed"]
+        for r in new:
+            if r["status"] == "value":
+                from engine import runner
+
+                g, e = runner._parse_num(r["got"]), runner._parse_num(r["exp"])
+                if not (abs(g - e) <= 1e-9 * max(abs(e), abs(g), 1)):
+                    bad.append(r["name"])
+        M.true(name, not bad, "l = (%d, %d): %d of %d clauses of the per-shape contract fail natively; first: %s" % (la, lb, len(bad), len(new), bad[:2]))
+
+    def run(self, shape, M):
+        if not M.symbolic:
+            return self.native(shape, M)
+        import z3
+
+        pc = M.mods["gbasis.integrals.point_charge"]
+        cls = M.mods["gbasis.contractions"].GeneralizedContractionShell
+        Mn, R, K, N = shape["M"], shape["R"], shape["K"], shape["N"]
+        lnames = ["l1", "l2"]
+        ls = [G.Aff.var(n) for n in lnames]
+        cn = [[["c%d_%d%s" % (i + 1, r, x) for x in "xyz"] for r in range(R[i])] for i in range(2)]
+        sizes = lnames + [nm for rows in cn for row in rows for nm in row]
+        shells = []
+        for i in range(2):
+            comps = np.empty((R[i], 3), dtype=object)
+            for r in range(R[i]):
+                for j in range(3):
+                    comps[r, j] = G.Aff.var(cn[i][r][j])
+            shells.append(_stub_shell(cls, ls[i], M.vec("X%d" % i, 3), M.vec("e%d" % i, K[i], "pos"), M.vec("d%d" % i, (K[i], Mn[i])), comps))
+        pts, q = M.vec("R", (N, 3)), M.vec("q", N)
+        f = pc.PointChargeIntegral.construct_array_contraction
+
+        def body(C_):
+            seen = {}
+
+            def kernel(coords, boys, ca, anga, ea, da, cb, angb, eb, db):
+                seen["args"] = (coords, boys, ca, anga, ea, da, cb, angb, eb, db)
+                return G.GSpecTable([G.Aff.of(anga) + 1] * 3 + [G.Aff.of(angb) + 1] * 3, (np.shape(coords)[0], np.shape(da)[1], np.shape(db)[1]), "K")
+
+            with bind.patched((pc, "np", G.GNp(pc.np)), (pc, "_compute_one_elec_integrals", kernel)):
+                out = f(shells[0], shells[1], pts, q)
+            return out, seen
+
+        def setup(C_):
+            for i in range(2):  # contract of the shell: every component lies between 0 and l (the rows add up to l)
+                for row in cn[i]:
+                    for nm in row:
+                        C_.assumed.append(("le", G.Aff.var(nm), ls[i]))
+                    C_.assumed.append(("eq", G.Aff.var(row[0]) + G.Aff.var(row[1]) + G.Aff.var(row[2]), ls[i]))
+
+        cases = G.run_cases(sizes, body, setup)
+        env, _ = G._z3env()
+        M.true("anyLpcblock/cases", len(cases) >= 2, "%d cases of the comparison of the angular momenta" % len(cases))
+        for cnum, (C, (out, seen)) in enumerate(cases):
+            pfx = "anyLpcblock/case%d" % cnum
+            cp = _case_premise(C, sizes)
+            prem = _sizes_premise(env, sizes) + (cp(env) if cp else [])
+            a = seen.get("args")
+            M.true(pfx + "/pre@kernel/called", a is not None, "")
+            if a is None:
+                continue
+            order = [0, 1] if a[2] is shells[0].coord else ([1, 0] if a[2] is shells[1].coord else None)
+            M.true(pfx + "/pre@kernel/which-shell-first", order is not None, "the first centre handed to the kernel is the centre of one of the two shells")
+            if order is None:
+                continue
+            hi, lo = shells[order[0]], shells[order[1]]
+            ok = (a[0] is pts and isinstance(a[3], G.Aff) and a[3].key() == hi.angmom.key() and a[4] is hi.exps and a[5] is hi.coeffs and a[6] is lo.coord
+                  and isinstance(a[7], G.Aff) and a[7].key() == lo.angmom.key() and a[8] is lo.exps and a[9] is lo.coeffs)
+            M.true(pfx + "/pre@kernel/args", bool(ok), "points; each shell's centre, l, exponents, coefficients stay together (order %s)" % order)
+            if not ok:
+                continue
+            st, mdl = G.check_valid(prem, a[3].z3(env) >= a[7].z3(env))
+            M._rec(pfx + "/pre@kernel/higher-angular-momentum-first", st, "z3-lia", G.LAST_SECS[0], detail=mdl or "", cex=_cex(mdl))
+            bf = pc.PointChargeIntegral.__dict__["boys_func"]
+            M.true(pfx + "/pre@kernel/boys", a[1] is pc.PointChargeIntegral.boys_func or getattr(a[1], "__func__", a[1]) is getattr(bf, "__func__", bf), "the class's Boys function is handed to the kernel")
+            nb = check_spec_reads(M, C, sizes, pfx, extra_prem=cp)
+            M.true(pfx + "/table-read-with-checked-indices", nb >= 6 * R[0] * R[1], "%d index-in-range obligations on the kernel's table" % nb)
+            data = out.data if isinstance(out, G.GVal) else np.asarray(out, dtype=object)
+            want = (Mn[0], R[0], Mn[1], R[1], N)
+            okshape = tuple(data.shape) == want and not getattr(out, "sym", None)
+            M.true(pfx + "/shape", okshape, "%s, expected %s" % (tuple(data.shape), want))
+            if not okshape:
+                continue
+            sq = M.to_spec(q)
+            comp = [[[G.Aff.var(nm) for nm in row] for row in cn[i]] for i in range(2)]
+            for m1, r1, m2, r2, n in itertools.product(range(Mn[0]), range(R[0]), range(Mn[1]), range(R[1]), range(N)):
+                k1, k2 = comp[0][r1], comp[1][r2]
+                if order == [0, 1]:
+                    src = C.named_atom("K", *(k1 + k2 + [(n, m1, m2)]))
+                else:
+                    src = C.named_atom("K", *(k2 + k1 + [(n, m2, m1)]))
+                M.eq(pfx + "/out" + str([m1, r1, m2, r2, n]), data[m1, r1, m2, r2, n], -sq[n] * src)
+        st, mdl = G.check_valid(_sizes_premise(env, sizes), z3.Or([G._cons_z3([c for c in C.assumed if all(nm in lnames for nm in set(c[1].t) | set(c[2].t))], env) for C, _ in cases]))
+        M._rec("anyLpcblock/cases-cover-all-angular-momenta", st, "z3-lia", G.LAST_SECS[0], detail=mdl or "", cex=_cex(mdl))
